@@ -36,9 +36,10 @@ type Delivery struct {
 
 type Scenario struct {
 	RunSeed    uint64     `json:"run_seed"`
-	Parallel   int        `json:"parallel,omitempty"`  // >0: that many signer/verifier pairs work concurrently, each with its own key (Deliveries are ignored)
-	Leftovers  bool       `json:"leftovers,omitempty"` // the SIG record handed to Sign is a recycled one: every field Sign is documented to fill in itself still holds something
-	Resign     bool       `json:"resign,omitempty"`    // the signer uses its SIG record a second time (a template kept between messages); the second output is what travels
+	Parallel   int        `json:"parallel,omitempty"`    // >0: that many signer/verifier pairs work concurrently, each with its own key (Deliveries are ignored)
+	Leftovers  bool       `json:"leftovers,omitempty"`   // the SIG record handed to Sign is a recycled one: every field Sign is documented to fill in itself still holds something
+	Resign     bool       `json:"resign,omitempty"`      // the signer uses its SIG record a second time (a template kept between messages); the second output is what travels
+	ThirdParty int        `json:"third_party,omitempty"` // the message that travels is signed by an independent implementation (own digest construction, standard library crypto): 1 ECDSA with the smaller s, 2 with the larger s, 3 as it comes
 	Msg        gen.Recipe `json:"msg"`
 	Key        int        `json:"key"`
 	EpochS     int        `json:"epoch_s"`    // bubble is slept forward by this much first
@@ -91,6 +92,9 @@ func Gen(seed uint64, tier string) any {
 		sc.Parallel = 2 + r.IntN(3)
 	}
 	sc.Resign = core.Chance(r, 25)
+	if core.Chance(r, 30) {
+		sc.ThirdParty = 1 + r.IntN(3)
+	}
 	sc.Leftovers = core.Chance(r, 15)
 	sc.EpochS = core.Pick(r, 0, 1, 86400*365, 86400*365*20)
 	sc.InceptOff = core.Pick(r, 0, -300, 300, -1, 1, -86400)
@@ -359,6 +363,23 @@ func runIn(sc *Scenario, res *core.Result, verbose bool) {
 		signed = signed2
 	}
 	logf("signed %s compress=%v len=%d", algName, sc.Msg.Compress, len(packed))
+	// Q1: what Sign produced is a signature in the eyes of an implementation that shares nothing with it
+	res.Bump("oracle.Q1_signature_valid_independently")
+	if ok, judgable := oracle.VerifySIG0(signed, kp.priv.Public()); judgable && !ok {
+		res.Fail("Q1", "signature-invalid-for-others", "the SIG record that SIG.Sign (%s) appended is not a valid RFC 2931 signature of the message under the key it was made with (independent computation of the signed data and the standard library's verification)", algName)
+		return
+	}
+	if sc.ThirdParty > 0 {
+		// the message is signed by another implementation instead: same key, same fields, own code.
+		// For ECDSA it emits the signature with the smaller or the larger s - both are valid.
+		if d, _, _, perr := oracle.SIG0Parts(signed); perr == nil && len(d) > 18+len(packed) {
+			signerWire := d[18 : len(d)-len(packed)]
+			if third, terr := oracle.SignSIG0(packed, kp.key.Algorithm, kp.key.KeyTag(), signerWire, incept, expire, kp.priv, sc.ThirdParty); terr == nil {
+				signed = third
+				res.Bump("fault.signed_by_another_implementation")
+			}
+		}
+	}
 	lay, perr2 := oracle.Parse(signed)
 	if perr2 != nil || lay.End != len(signed) || len(lay.RRs) == 0 {
 		res.Fail("Q1", "signed-octets-malformed", "the signed octets are not a well-formed message (own parser: %v, end %d of %d)", perr2, lay.End, len(signed))
